@@ -41,7 +41,8 @@ if [ -n "$rl" ] && tail -n +$((rl+1)) $W/trace | grep -q 'write([0-9]*, ".*tail'
 # --- C18: SIGINT is not handled (registered as SIGTERM|SIGINT = 15)
 mk c18 false false
 for i in $(seq 1 8000); do printf 'fn f%d(){ info!("a"); }\n' $i > $W/c18/src/f$i.rs; done
-$B --config $W/c18/Breadlog.yaml >$W/out 2>&1 & pid=$!
+# (a background job of a non-interactive shell starts with SIGINT ignored: restore the default disposition)
+env --default-signal=INT $B --config $W/c18/Breadlog.yaml >$W/out 2>&1 & pid=$!
 sleep 0.3; kill -INT $pid 2>/dev/null; wait $pid; rc=$?
 if [ $rc = 130 ]; then echo "DEFECT C18 SIGINT kills the process (status $rc = killed by signal 2)"; else echo "OK C18 rc=$rc"; fi
 # --- C18/C05: an interrupted --check passes
